@@ -407,6 +407,53 @@ func registerIntrinsics(ex *Executor) {
 			return smt.False, cNext
 		}
 	}
+	// pointer cells (atomic.Pointer[T] is built on these); in interleaving mode every access is a point at which another
+	// goroutine may run
+	I["sync/atomic.LoadPointer"] = func(ex *Executor, st *State, cc *CallCtx, args []Val) (Val, ctl) {
+		if ex.maybeSwitch(st) {
+			return nil, cSwitch
+		}
+		save := st.LogOn
+		st.LogOn = false
+		v := ex.load(st, args[0].(Ptr))
+		st.LogOn = save
+		return v, cNext
+	}
+	I["sync/atomic.StorePointer"] = func(ex *Executor, st *State, cc *CallCtx, args []Val) (Val, ctl) {
+		if ex.maybeSwitch(st) {
+			return nil, cSwitch
+		}
+		save := st.LogOn
+		st.LogOn = false
+		ex.store(st, args[0].(Ptr), args[1])
+		st.LogOn = save
+		return nil, cNext
+	}
+	I["sync/atomic.SwapPointer"] = func(ex *Executor, st *State, cc *CallCtx, args []Val) (Val, ctl) {
+		if ex.maybeSwitch(st) {
+			return nil, cSwitch
+		}
+		save := st.LogOn
+		st.LogOn = false
+		old := ex.load(st, args[0].(Ptr))
+		ex.store(st, args[0].(Ptr), args[1])
+		st.LogOn = save
+		return old, cNext
+	}
+	I["sync/atomic.CompareAndSwapPointer"] = func(ex *Executor, st *State, cc *CallCtx, args []Val) (Val, ctl) {
+		if ex.maybeSwitch(st) {
+			return nil, cSwitch
+		}
+		save := st.LogOn
+		st.LogOn = false
+		defer func() { st.LogOn = save }()
+		cur := ex.load(st, args[0].(Ptr))
+		if ex.branch(st, ex.valEq(cur, args[1])) {
+			ex.store(st, args[0].(Ptr), args[2])
+			return smt.True, cNext
+		}
+		return smt.False, cNext
+	}
 	// ---- errors / fmt ----
 	I["fmt.Errorf"] = func(ex *Executor, st *State, cc *CallCtx, args []Val) (Val, ctl) {
 		format := strArg(args[0])
